@@ -7,6 +7,23 @@ from sim.runner import RunResult
 
 GRAN = {'sync': kernel.G_SYNC, 'line': kernel.G_LINE, 'opcode': kernel.G_OPCODE}
 
+# the tier the generators are drawing for (set by the runner's workers and by the self-test).  In the thorough
+# tier a quarter of the scenarios are drawn with deeper bounds - more threads, more operations, larger charts,
+# longer histories - than the quick tier ever uses; a scenario, once drawn, is explicit data and no longer depends on it
+TIER = 'quick'
+
+
+def deep(rng, p=0.25):
+  """decides (with the scenario's own generator) whether this scenario uses the deeper bounds"""
+  return TIER == 'thorough' and rng.random() < p
+
+
+def span(rng, lo, hi, big=False, factor=2):
+  """randrange(lo, hi), stretched when the scenario uses the deeper bounds"""
+  if big:
+    return rng.randrange(lo, lo + (hi - lo) * factor + 1)
+  return rng.randrange(lo, hi)
+
 
 def draw_sched(rng, grans=('sync', 'line', 'opcode'), weights=None, expected_steps=400,
                victims=None, policies=('sticky', 'pct', 'starve')):
